@@ -134,7 +134,7 @@ variable {N : Nat}
 abbrev Adv (c : PCtx N) (p : Nat) := { q : Nat // c.toks.size - q < c.toks.size - p }
 
 /-- New position after consuming zero or more tokens. -/
-abbrev AdvLe (c : PCtx N) (p : Nat) := AdvLe c p
+abbrev AdvLe (c : PCtx N) (p : Nat) := { q : Nat // c.toks.size - q ≤ c.toks.size - p }
 
 /-- `self.next()` when the current token is not `eof`. -/
 def nextTok (c : PCtx N) (p : Nat) : Option (Token N × Adv c p) :=
